@@ -33,6 +33,28 @@ func codecPool(a *aspec.ASpec) {
 	)
 }
 
+// addNullPools adds the nullable pool components a schema refers to (only then: nullable components
+// of some kinds do not build, which is C01's business and must not take the whole package down).
+func addNullPools(a *aspec.ASpec, s aspec.Schema) {
+	bs, _ := json.Marshal(s)
+	has := func(n string) bool {
+		for _, x := range a.Schemas {
+			if x.Name == n {
+				return true
+			}
+		}
+		return false
+	}
+	if strings.Contains(string(bs), "PoolNullStr") && !has("PoolNullStr") {
+		a.Schemas = append(a.Schemas, aspec.NamedSchema{Name: "PoolNullStr", Schema: aspec.Schema{K: "string", Nullable: true}})
+	}
+	if strings.Contains(string(bs), "PoolNullObj") && !has("PoolNullObj") {
+		o := objSchema(aspec.Prop{Name: "n", Schema: aspec.Schema{K: "int64"}, Req: true})
+		o.Nullable = true
+		a.Schemas = append(a.Schemas, aspec.NamedSchema{Name: "PoolNullObj", Schema: o})
+	}
+}
+
 func codecCarrier(id string) *aspec.ASpec {
 	a := &aspec.ASpec{Base: aspec.Base{Form: "none"}, SpecName: "openapi.yaml", Flags: aspec.Flags{APIHandler: true, DoNotEdit: true}, Security: aspec.Sec{K: "none"}, Title: id}
 	t := []aspec.Seg{{K: "lit", S: "ping"}}
@@ -166,6 +188,24 @@ func docsFor(s map[string]any, rng *rand.Rand, n int) []docCase {
 		out = append(out, docCase{doc: d, mut: "none"})
 	}
 	if s["k"] == "object" {
+		// explicit null at every nullable property, one at a time
+		for _, p := range s["props"].([]any) {
+			pm := p.(map[string]any)
+			if n, _ := pm["s"].(map[string]any)["nullable"].(bool); n {
+				d, _ := sampleValue(s, rng, 0).(map[string]any)
+				if d != nil {
+					d[pm["name"].(string)] = nil
+					out = append(out, docCase{doc: d, mut: "none"})
+				}
+			}
+		}
+	}
+	if s["k"] == "array" {
+		if n, _ := s["items"].(map[string]any)["nullable"].(bool); n {
+			out = append(out, docCase{doc: []any{nil, sampleValue(s["items"].(map[string]any), rng, 1), nil}, mut: "none"})
+		}
+	}
+	if s["k"] == "object" {
 		base, _ := sampleValue(s, rng, 0).(map[string]any)
 		for base == nil {
 			base, _ = sampleValue(s, rng, 0).(map[string]any)
@@ -265,6 +305,7 @@ func checkCodec(c *core.Check, which string) {
 	var pre []core.GenJob
 	for i, s := range schemas {
 		a := codecCarrier(fmt.Sprintf("pre%d", i))
+		addNullPools(a, s)
 		a.Schemas = append(a.Schemas, aspec.NamedSchema{Name: fmt.Sprintf("T%d", i), Schema: s})
 		j := a.Job(fmt.Sprintf("pre%d", i))
 		j.Package, j.Check = "gen", true
@@ -315,6 +356,7 @@ func checkCodec(c *core.Check, which string) {
 		g := driver.Group{Pkg: id, Kind: "codec"}
 		for _, si := range good[start:end] {
 			tn := fmt.Sprintf("T%d", si)
+			addNullPools(a, schemas[si])
 			a.Schemas = append(a.Schemas, aspec.NamedSchema{Name: tn, Schema: schemas[si]})
 		}
 		for _, si := range good[start:end] {
